@@ -38,6 +38,16 @@ const (
 	valHuge  = 1000000000000 // value of the unaffordable tokens (> every balance)
 )
 
+// limits are the four slot limits of a pool under test.
+type limits struct {
+	AS int `json:"account_slots"`
+	GS int `json:"global_slots"`
+	AQ int `json:"account_queue"`
+	GQ int `json:"global_queue"`
+}
+
+var defaultLimits = limits{cfgAccountSlots, cfgGlobalSlots, cfgAccountQueue, cfgGlobalQueue}
+
 // senders: 0 = L (the one that is submitted through AddLocal), 1 = A, 2 = B
 const NS = 3
 
@@ -139,6 +149,12 @@ func initUniverse() {
 			}
 		}
 	}
+	// nonces 4..6 at price 1: only used by the truncation stage (trunc.go)
+	for s := 0; s < NS; s++ {
+		for n := uint64(4); n <= truncMaxNonce; n++ {
+			newToken(fmt.Sprintf("%s%dp1", senderNames[s], n), "plain", s, n, 1, gasSmall, valSmall, nil, signerOf(s))
+		}
+	}
 	// price-bump boundary: 100 -> 105 (higher, but below the 10 % bump), 100 -> 110 (exactly the bump)
 	newToken("A0p105", "plain", 1, 0, 105, gasSmall, valSmall, nil, signerOf(1))
 	newToken("A0p110", "plain", 1, 0, 110, gasSmall, valSmall, nil, signerOf(1))
@@ -230,6 +246,7 @@ type opDef struct {
 	name    string
 	reduced bool // member of the reduced alphabet
 	steps   []asyncStep
+	trunc   bool // only used by the truncation stage (trunc.go), in neither alphabet
 }
 
 var ops []*opDef
